@@ -7,5 +7,5 @@ CONSTANTS
   MaxX = 1
   MaxP = 1
   MaxL = 1
-  MaxTop = 2
+  MaxTop = 1
 CHECK_DEADLOCK FALSE
